@@ -362,8 +362,14 @@ func Main(engineName string, engines map[string]Engine) int {
 			res2, herr2 := runOnce(eng, c2, p)
 			disarm()
 			if herr2 != "" || c2.Fingerprint() != c.Fingerprint() || (res2.Violation == nil) != (res.Violation == nil) {
-				emit(&runLine{Kind: "error", Seed: seed, Err: fmt.Sprintf("nondeterminism: fp %s vs %s (events %d vs %d) %s\nfirst diff: %s",
-					c.Fingerprint(), c2.Fingerprint(), c.Events(), c2.Events(), herr2, firstDiff(c.Log, c2.Log))})
+				vs := func(r *Result) string {
+					if r == nil || r.Violation == nil {
+						return "no violation"
+					}
+					return r.Violation.Property + "/" + r.Violation.Oracle + ": " + r.Violation.Msg
+				}
+				emit(&runLine{Kind: "error", Seed: seed, Err: fmt.Sprintf("nondeterminism: fp %s vs %s (events %d vs %d) %s\nfirst diff: %s\nfirst execution: %s\nsecond execution: %s",
+					c.Fingerprint(), c2.Fingerprint(), c.Events(), c2.Events(), herr2, firstDiff(c.Log, c2.Log), vs(res), vs(res2))})
 				code = 2
 				break
 			}
